@@ -21,10 +21,12 @@ import DEngine.Model.MiniKv
       - `Drop` = `save_hard_state` = `persist_last_applied` (metadata FIRST [`persist_metadata_sync:written`])
         + `flush`; WAL kept.
       - `new` → `load_from_disk`: `load_metadata` (missing / shorter than 16 bytes ⇒ (0,0)), `load_data`,
-        `replay_wal` (every record applied in order, entry index parsed and IGNORED, `last_applied` NOT
-        advanced), WAL cleared if it was non-empty [`clear_wal:done`].
+        `replay_wal`: every record applied in order; since fix F15 `last_applied` is advanced to the index
+        of the last replayed record (records are appended at apply start with consecutive indexes, so
+        that index is the number of entries started, `Img.n`) and, if the WAL was non-empty, the
+        recovered state is written as a `checkpoint()` (five crash points) instead of just clearing the WAL.
   * RocksDB engine, …/rocksdb/rocksdb_state_machine.rs
-      - `apply_chunk`: `write_wbwi` (data durable and atomic per chunk), `update_last_applied` in memory only.
+      - `apply_chunk`: `write_wbwi` — data AND applied index in the same atomic batch (fix F15r).
       - `flush` / `flush_async` / `close_db` / `Drop`: `persist_state_machine_metadata` (applied index).
       - `new`: `load_state_machine_metadata`.
   * Restart: node/builder.rs `build` takes `state_machine.last_applied().index` as the node's applied index;
@@ -101,7 +103,7 @@ def flushSteps (s : St) : St × List Img :=
 /-- `new()` on an image: (contents, applied index). -/
 def recover (eng : Eng) (i : Img) : AMap × Nat :=
   match eng with
-  | .file => (applyAll i.dData i.wal, i.dMeta)
+  | .file => (applyAll i.dData i.wal, if i.wal.isEmpty then i.dMeta else max i.dMeta i.n)
   | .rocks => (i.dData, i.dMeta)
 
 def step (s : St) : Op → St × List Img
@@ -115,7 +117,8 @@ def step (s : St) : Op → St × List Img
         (s3, img s1 "apply:wal-appended" :: is)
       else (s2, [img s1 "apply:wal-appended"])
     | .rocks =>
-      ({ s with data := (applyCmd s.data c).1, cmds := s.cmds ++ [c], la := s.cmds.length + 1 }, [])
+      ({ s with data := (applyCmd s.data c).1, cmds := s.cmds ++ [c], la := s.cmds.length + 1,
+                dMeta := s.cmds.length + 1 }, [])
   | .ckpt =>
     match s.eng with
     | .file => ckptSteps s
@@ -134,8 +137,9 @@ def step (s : St) : Op → St × List Img
       if s1.wal.isEmpty then
         ({ s1 with data := r.1, la := r.2, due := false }, img s0 "persist_metadata_sync:written" :: is)
       else
-        let s2 := { s1 with data := r.1, la := r.2, due := false, wal := [] }
-        (s2, img s0 "persist_metadata_sync:written" :: (is ++ [img s2 "clear_wal:done"]))
+        -- replay, then the recovered state becomes the new checkpoint
+        let (s2, ks) := ckptSteps { s1 with data := r.1, la := r.2, due := false }
+        (s2, img s0 "persist_metadata_sync:written" :: (is ++ ks))
     | .rocks => ({ s with dMeta := s.la }, [])
   | .tick => ({ s with due := true }, [])
 
